@@ -24,6 +24,7 @@ import (
 	"os"
 	"runtime"
 	"sort"
+	"strings"
 	"sync"
 	"time"
 
@@ -104,7 +105,11 @@ func main() {
 
 	var fatal sync.Once
 	phaseSeconds := map[string]float64{} // diagnostics only, never part of a verdict
+	only := os.Getenv("VERIF_C11_ONLY")  // e.g. "7" or "1,6": run only these phases (diagnosis and mutation runs)
 	run := func(n int, phase int64, f func(s *stats, rng *rand.Rand) error) {
+		if only != "" && !strings.Contains(","+only+",", fmt.Sprintf(",%d,", phase)) {
+			return
+		}
 		t0 := time.Now()
 		defer func() { phaseSeconds[fmt.Sprintf("phase_%d", phase)] = time.Since(t0).Seconds() }()
 		var wg sync.WaitGroup
@@ -148,6 +153,10 @@ func main() {
 	run(r.Pick(6, 12), 6, func(s *stats, rng *rand.Rand) error {
 		return concurrentWorld(s, rng, r.Pick(100, 300), r.Pick(80, 250))
 	})
+	// three scatter requests and a scheduler call interleaved at their cluster queries by a gate scheduler
+	run(r.Pick(12, 24), 7, func(s *stats, rng *rand.Rand) error {
+		return overlapWorld(s, rng, r.Pick(8, 16))
+	})
 	// batch API with retries: the cluster changes between the failed first attempt and the retry
 	run(r.Pick(48, 96), 3, func(s *stats, rng *rand.Rand) error {
 		return batchRetryScenario(s, rng)
@@ -184,7 +193,7 @@ func main() {
 	if total.counters["scatter_operators_moving_peers"] == 0 {
 		r.Inconclusive("no scatter operator that moves a peer was observed")
 	}
-	if r.Replay == "" {
+	if r.Replay == "" && only == "" {
 		if total.counters["batch_retry_second_attempt_observed"] < 10 {
 			r.Inconclusive("batch-retry scenarios: the retry after a failed first attempt was observed only %d times", total.counters["batch_retry_second_attempt_observed"])
 		}
